@@ -584,6 +584,16 @@ def _struct_cells(full):
     return cells
 
 
+def _ref_str_cells(n):
+    """cells of the text s of ref_rules; while the known finding C08-ref-name-outside-pattern is listed, the cell of
+    the 4-character texts beginning '{}' holds nothing but excluded inputs and is left out (it comes back by itself
+    when the finding is no longer listed as known)"""
+    cells = R.str_cells(n, split1_from=2, split2_from=4, nclass=4)
+    if R.known_active("C08-ref-name-outside-pattern"):
+        cells = [c for c in cells if not (c.get("VP_LEN") == 4 and c.get("VP_C0") == 0 and c.get("VP_C1") == 1)]
+    return cells
+
+
 HARNESSES = [
     R.H("total_doc", _T_TOTAL,
         quick=R.tier(cells=_total_cells(3, 8, "a"), env={"VP_N": 2, "VP_M": 1}, timeout=300,
@@ -634,7 +644,7 @@ HARNESSES = [
                            "column b (named 'b', or 'B' in the VP_UPPER cells) in {absent, value 'a#', value '{r}#', "
                            "category '{r}'} with r in {a, b, HED}"),
         thorough=R.tier(cells=R.product_cells(R.int_cells("VP_KA", 0, 2),
-                                              R.str_cells(4, split1_from=2, split2_from=4, nclass=4),
+                                              _ref_str_cells(4),
                                               R.int_cells("VP_UPPER", 0, 1)),
                         env={"VP_N": 4}, timeout=1100,
                         bound="as quick with s <= 4 chars, '#' appended or not for every kind of column a, "
